@@ -49,27 +49,31 @@ def tree_hash():
     return h.hexdigest()[:16]
 
 
-def ensure_dump():
+def ensure_dump(features="std"):
     """MIR dump of the current /repo working tree (scratch copy outside /repo and /verif). Returns (mir path, src dir)."""
     hsh = tree_hash()
     base = os.path.join(WORK, "mir")
     os.makedirs(base, exist_ok=True)
-    mir = os.path.join(base, f"chrono-{hsh}.mir")
+    ftag = features.replace(",", "+")
+    mir = os.path.join(base, f"chrono-{hsh}-{ftag}.mir")
     src = os.path.join(base, f"src-{hsh}")
     if os.path.exists(mir) and os.path.isdir(src) and os.path.getsize(mir) > 100000:
         return mir, src
     # remove dumps of other trees
     for p in glob.glob(os.path.join(base, "chrono-*.mir")) + glob.glob(os.path.join(base, "src-*")):
+        if hsh in os.path.basename(p):
+            continue
         if os.path.isdir(p):
             shutil.rmtree(p, ignore_errors=True)
         else:
             os.remove(p)
-    subprocess.run(["rsync", "-a", "--delete", "--exclude", "target", "--exclude", ".git", REPO + "/", src + "/"], check=True)
+    if not os.path.isdir(src):
+        subprocess.run(["rsync", "-a", "--delete", "--exclude", "target", "--exclude", ".git", REPO + "/", src + "/"], check=True)
     env = dict(os.environ, CARGO_NET_OFFLINE="true")
     env.pop("RUSTFLAGS", None)
     with open(mir + ".tmp", "w") as out, open(os.path.join(base, "mir.err"), "w") as err:
-        r = subprocess.run(["cargo", "+nightly", "rustc", "--offline", "--lib", "--no-default-features", "--features", "std",
-                            "--target-dir", os.path.join(base, "target"), "--", "-Zunpretty=mir", "-C", "debug-assertions=off",
+        r = subprocess.run(["cargo", "+nightly", "rustc", "--offline", "--lib", "--no-default-features", "--features", features,
+                            "--target-dir", os.path.join(base, "target-" + ftag), "--", "-Zunpretty=mir", "-C", "debug-assertions=off",
                             "-C", "overflow-checks=on"], cwd=src, env=env, stdout=out, stderr=err)
     if r.returncode != 0 or os.path.getsize(mir + ".tmp") < 100000:
         raise RuntimeError("MIR dump failed: " + open(os.path.join(base, "mir.err")).read()[-800:])
@@ -94,7 +98,11 @@ def ensure_probe():
 
 def run_many(obs, tier, seed, logdir, known, jobs=8):
     os.makedirs(logdir, exist_ok=True)
-    mir, src = ensure_dump()
+    dumps = {}
+    for o in obs:
+        ft = getattr(o, "features", "std")
+        if ft not in dumps:
+            dumps[ft] = ensure_dump(ft)
     probe = ensure_probe()
     kj = os.path.join(logdir, "known.json")
     with open(kj, "w") as f:
@@ -102,6 +110,7 @@ def run_many(obs, tier, seed, logdir, known, jobs=8):
 
     def one(job):
         o, si = job
+        mir, src = dumps[getattr(o, "features", "std")]
         cmd = ["python3-vt", os.path.join(MIRSMT, "run_one.py"), o.name, "--tier", tier, "--seed", str(seed), "--mir", mir,
                "--src", src, "--probe", probe, "--known-json", kj, "--shard", f"{si}/{o.shards}"]
         t0 = time.time()
